@@ -7,6 +7,7 @@
 // freezing the wording.
 #include "../harness/rc_glue.hpp"
 #include "../harness/addrcore.hpp"
+#include "../harness/litshapes.hpp"
 
 using namespace vf;
 extern "C" const vapi dflt_api, o001_api;
@@ -239,6 +240,13 @@ static void stage_codes(Run &R) {
     R.space("C15 all error codes 1..35 produced through a caller-installed callback in the ASCII and UTF-8 dispatch", 2 * (E["MAX"] - 1));
 }
 
+// the address literals enumerated for C05, as domain parts of whole addresses
+static void stage_literals(Run &R) {
+    uint64_t idx = 0, total = 0; int dm = K_->default_mask();
+    auto go = [&](const Bytes &l) -> bool { total++; if ((int) (idx++ % R.a.nworkers) != R.a.worker) return true; return run_one(R, (total % 5 == 0 ? "\"q q\"@" : "u@") + l, dm); };
+    if (!lit::shapes(R.a.thorough, go)) return;
+    R.space("C15 the enumerated address-literal texts of C05 (IPv6 shapes, octet values, longest spellings, every byte in the tag, out-of-range octets, bytes around the brackets) as domain part", total);
+}
 static void stage_random(Run &R) {
     rc_run(R, "C15 diagnostics truthful on generated addresses", 4.0, [&](Src &s) -> std::optional<Failure> {
         int mask = s.chance(1, 2) ? K_->default_mask() : (int) s.pick(2048);
@@ -269,7 +277,7 @@ static void stage_targets(Run &R) {
 
 #ifndef VF_FUZZ
 int main(int argc, char **argv) {
-    int rc = std_main(argc, argv, "C15", {{"setup", stage_setup}, {"codes", stage_codes}, {"random", stage_random}, {"targets", stage_targets}},
+    int rc = std_main(argc, argv, "C15", {{"setup", stage_setup}, {"codes", stage_codes}, {"random", stage_random}, {"literals", stage_literals}, {"targets", stage_targets}},
         [](Run &R, const Case &c) -> std::optional<Failure> {
             int kind = (int) c.geti("kind");
             if (kind == 1) return check_setup(R, (int) c.geti("raw"), c.getb("prev"), (int) c.geti("mode0", 1));
